@@ -25,7 +25,8 @@ Values
     NONE, some(v), ("Ok", v), ("Err", v) for Option / Result.
 Integers are mathematical (no wrap-around) except `as uN` casts; callers must keep operands in range and say so.
 Supported nodes: lit path call mcall bin un assign field index ref cast if letcond match block array tuple struct
-range for while return try(on Some/Ok) macro(matches!) ; patterns: ident lit range or tuple tstruct wild path ref slice.
+range for while return try(on Some/Ok) closure macro(matches!) ; builtins: <uN|iN>::try_from(int) -> Ok/Err by range,
+Result.ok(), array.map(closure), into() via user From impls, clone, len, unwrap, is_some/is_none, abs ; patterns: ident lit range or tuple tstruct wild path ref slice.
     it.match_value(match_node, value, frame)            -> value   evaluate the arm selected by `value` (scrutinee not evaluated:
                                                                    lets a rule model a std call such as binary_search_by by its result)
 Pure calls (no `&mut` parameter) are memoised; `call_item(.., memo=False)` / `binop(.., memo=False)` skip the memo for the
@@ -85,6 +86,16 @@ class StructV:
 
     def __repr__(self):
         return "%s{%s}" % (self.ty, ", ".join("%s: %r" % kv for kv in self.fields.items()))
+
+
+class ClosureV:
+    """closure value: parameter patterns, body and the defining frame (captured by reference)"""
+    __slots__ = ("params", "body", "frame")
+
+    def __init__(self, params, body, frame):
+        self.params = params
+        self.body = body
+        self.frame = frame
 
 
 NONE = ("None",)
@@ -594,8 +605,14 @@ class Interp:
         v = self.eval(e["e"], fr)
         return self.match_value(e, v, fr)
 
-    def match_value(self, e, v, fr):
-        """evaluate the arm of match node `e` selected by value v (scrutinee not evaluated)"""
+    def match_value(self, e, v, fr, as_fn_body=False):
+        """evaluate the arm of match node `e` selected by value v (scrutinee not evaluated).
+        as_fn_body=True: the match is in tail position of its function, so a `return` / `?` inside the arm yields the value"""
+        if as_fn_body:
+            try:
+                return self.match_value(e, v, fr)
+            except _Return as r:
+                return r.v
         for arm in e["arms"]:
             b = {}
             if self.match_pat(arm["pat"], v, b):
@@ -662,6 +679,21 @@ class Interp:
                 continue
         return ()
 
+    def _e_closure(self, e, fr):
+        return ClosureV(e.get("params") or [], e["body"], fr)
+
+    def call_closure(self, c, args):
+        if len(c.params) != len(args):
+            raise Unsupported("closure arity")
+        fr = Frame(dict(c.frame.vars), c.frame.self_ty, c.frame.file)
+        for p, a in zip(c.params, args):
+            if not self.match_pat(p, a, fr.vars):
+                raise Unsupported("refutable closure parameter")
+        try:
+            return self.eval(c.body, fr)
+        except _Return as r:
+            return r.v
+
     def _e_return(self, e, fr):
         raise _Return(self.eval(e["e"], fr) if e.get("e") else ())
 
@@ -709,6 +741,16 @@ class Interp:
             ty = fr.self_ty
         if name == "default" and not args_e:
             return self.default_of(ty)
+        if name == "try_from" and len(segs) == 2 and len(args_e) == 1 and (ty in _INT_TY or re.fullmatch(r"i(8|16|32|64)", ty)):
+            v = self.eval(args_e[0], fr)
+            if isinstance(v, bool) or not isinstance(v, int):
+                raise Unsupported("try_from of non-integer")
+            if ty in _INT_TY:
+                lo, hi = 0, (1 << _INT_TY[ty]) - 1
+            else:
+                bits = int(ty[1:])
+                lo, hi = -(1 << (bits - 1)), (1 << (bits - 1)) - 1
+            return ("Ok", v) if lo <= v <= hi else ("Err", ())
         fn = self.find_fn(ty, name)
         if fn is None:
             raise Unsupported("fn " + p)
@@ -749,6 +791,13 @@ class Interp:
                 f, s, tr, item = cands[0]
                 return self.call_item(item, s, [copyv(recv)], f)
             raise Unsupported("into() target of " + ty)
+        if m == "map" and isinstance(recv, list) and len(args_e) == 1:
+            f = self.eval(args_e[0], fr)
+            if not isinstance(f, ClosureV):
+                raise Unsupported("map with a non-closure argument")
+            return [self.call_closure(f, [copyv(x)]) for x in recv]
+        if m == "ok" and not args_e and isinstance(recv, tuple) and len(recv) == 2 and recv[0] in ("Ok", "Err"):
+            return some(recv[1]) if recv[0] == "Ok" else NONE
         if m in ("clone", "to_owned") and not args_e:
             return copyv(recv)
         if m == "len" and isinstance(recv, (list, bytes)) and not args_e:
